@@ -82,6 +82,12 @@ def atlas_docs():
                       "ne": any_of({"$ref": REF + "AllOptional"}, NULL), "le": arr({"$ref": REF + "AllOptional"}),
                       "zero": {"type": "integer", "enum": [0, 1]}, "blank": {"type": "string", "enum": ["", "x"]},
                       "d0": {"type": "string", "format": "date"}}, required=[]),
+        # schema defaults: a required property WITH a default declared before required ones without; optional properties with a default of every scalar kind
+        "Defaults": obj({"status": {"type": "string", "default": "new"}, "id": {"type": "integer"}, "pageSize": {"type": "integer", "default": 20},
+                         "theme": {"type": "string", "default": "light"}, "verbose": {"type": "boolean", "default": False}, "ratio": {"type": "number", "default": 1.5},
+                         "color": {"allOf": [{"$ref": REF + "Color"}], "default": "red"}, "since": {"type": "string", "format": "date", "default": "2020-01-02"},
+                         "zero": {"type": "integer", "default": 0}, "blank": {"type": "string", "default": ""}, "note": any_of({"type": "string"}, NULL),
+                         "rate": {"type": "number", "default": 2}, "key": {"type": "string"}}, required=["status", "id", "rate", "key"]),
         "MapOfModels": obj({"name": {"type": "string"}}, addl={"$ref": REF + "Inner"}),
         "MapOfLists": obj({}, addl=arr({"type": "string", "format": "date"})),
         "MapOfEnums": obj({}, addl={"$ref": REF + "Color"}),
@@ -117,6 +123,35 @@ def atlas_docs():
          "Chain": {"allOf": [{"$ref": REF + "Composed"}, obj({"more": {"type": "number"}}, required=["more"])]}}
     docs.append(("allof", doc_with(C)))
     return docs
+
+
+def reserved_doc():
+    """classes whose derived MODULE name is a reserved word (module gets the `_` suffix) or whose class name shadows a name the
+    templates use, each used in every position: model property, list item, union member, parameter in every location, body, response"""
+    R = REF
+    S = {"Type": {"type": "string", "enum": ["a", "b"]}, "Format": {"type": "integer", "enum": [1, 2]},
+         "Class": obj({"x": {"type": "string"}}), "Import": obj({"t": {"$ref": R + "Type"}, "cs": arr({"$ref": R + "Class"})}, required=["t"]),
+         "List": obj({"n": {"type": "integer"}}), "Self": obj({"again": {"$ref": R + "Self"}}), "Id": {"type": "string", "enum": ["p", "q"]},
+         "Holder": obj({"type": {"$ref": R + "Type"}, "format": {"$ref": R + "Format"}, "class": {"$ref": R + "Class"}, "import": {"$ref": R + "Import"},
+                        "maybe": any_of({"$ref": R + "Class"}, NULL), "u": {"oneOf": [{"$ref": R + "Type"}, {"$ref": R + "Format"}]},
+                        "lt": arr({"$ref": R + "Type"}), "list": {"$ref": R + "List"}, "mu": any_of({"$ref": R + "List"}, {"$ref": R + "Self"}),
+                        "id": {"$ref": R + "Id"}}, required=["type", "class"])}
+    J = lambda n: {"content": {"application/json": {"schema": {"$ref": R + n}}}}
+    par = lambda n, loc, ref, req=None: dict({"name": n, "in": loc, "schema": {"$ref": R + ref}}, **({"required": True} if (req or loc == "path") else {}))
+    paths = {"/things/{type}": {"get": {"operationId": "get_thing", "parameters": [par("type", "path", "Type"), par("format", "query", "Format"), par("id", "query", "Id", True),
+                                                                              par("X-Type", "header", "Type"), par("fmt", "cookie", "Format")],
+                                        "responses": {"200": dict(description="d", **J("Holder")), "404": dict(description="n", **J("Class"))}},
+                                "post": {"operationId": "post_thing", "parameters": [par("type", "path", "Type")], "requestBody": J("Import"),
+                                         "responses": {"200": dict(description="d", **J("List"))}}},
+             "/types": {"get": {"operationId": "list_types", "parameters": [{"name": "types", "in": "query", "schema": arr({"$ref": R + "Type"})}],
+                                "responses": {"200": {"description": "d", "content": {"application/json": {"schema": arr({"$ref": R + "Type"})}}}}}}}
+    return doc_with(S, paths)
+
+
+RESERVED_CFGS = [None, {"literal_enums": True},
+                 {"class_overrides": {"Holder": {"class_name": "Keeper", "module_name": "keeper_mod"}, "Type": {"class_name": "Kind", "module_name": "kind_module"},
+                                      "Class": {"class_name": "Klass"}}},
+                 {"literal_enums": True, "class_overrides": {"Format": {"class_name": "Fmt", "module_name": "fmt_mod"}, "Id": {"module_name": "ident"}}}]
 
 
 # ------------------------------------------------------------------ random documents
